@@ -143,6 +143,79 @@ func ruleC11Same(r *Run) {
 	}
 	ruleC11Prenorm(r, tm)
 	ruleC11Trail(r)
+	// formatPath itself trims first: its three kinds of input (route paths, group prefixes, request paths) reach it
+	// from different callers, and only what it does itself is done for all of them
+	if fp := w.Fn("rux", "Router.formatPath"); len(fp.Params) >= 2 {
+		prm := fp.Params[1]
+		bad := ""
+		var badPos token.Pos
+		eachInstr(fp, func(in ssa.Instruction) {
+			ret, ok := in.(*ssa.Return)
+			if !ok || bad != "" {
+				return
+			}
+			for _, lf := range valueLeaves(ret.Results[0]) {
+				if _, isC := lf.(*ssa.Const); isC {
+					continue
+				}
+				isTrim := func(y ssa.Value) bool {
+					c, ok := y.(*ssa.Call)
+					if !ok {
+						return false
+					}
+					switch calleeName(c) {
+					case "strings.TrimSpace", "strings.TrimFunc", "strings.Trim":
+						return flowsFromDeep(c.Call.Args[0], func(z ssa.Value) bool { return z == ssa.Value(prm) })
+					}
+					return false
+				}
+				trimmed := flowsFromDeep(lf, isTrim)
+				raw := flowsFromDeepExcept(lf, func(y ssa.Value) bool { return y == ssa.Value(prm) }, isTrim)
+				if !trimmed || raw {
+					bad, badPos = shortCanon(canon(lf)), w.InstrPos(in)
+				}
+			}
+		})
+		pos := fp.Pos()
+		if bad != "" {
+			pos = badPos
+		}
+		r.Check("C11-PRENORM", "(*Router).formatPath:trims first", pos, bad == "", map[bool]string{true: "every non-constant result of formatPath derives from the white-space-trimmed parameter", false: "formatPath returns text (" + bad + ") that is not derived from the trimmed parameter: callers that do not trim themselves — Group passes its prefix as given — register \"/ /api /users\" for a prefix \" /api \", which no request path normalises to"}[bad == ""])
+	}
+	// with a group prefix in force the stored path is ALWAYS the normalised concatenation: a shortcut that keeps the
+	// path as it is when it "already starts with the prefix" registers /api/api-docs as /api-docs
+	for i, fpv := range finals {
+		okAll := true
+		why := ""
+		phiLeavesA(fpv.val, fpv.in, func(leaf ssa.Value, fact factOracle, aliases []ssa.Value) {
+			if c, isCall := leaf.(*ssa.Call); isCall && len(c.Call.Args) == 2 {
+				if b, isB := c.Call.Args[1].(*ssa.BinOp); isB && b.Op == token.ADD && isLoadOfField(b.X, prefF) {
+					return
+				}
+			}
+			// without the prefix: only where the prefix is known to be empty
+			empty := fact(func(cond ssa.Value, truth bool) bool {
+				b, ok := cond.(*ssa.BinOp)
+				if !ok || (b.Op != token.EQL && b.Op != token.NEQ) {
+					return false
+				}
+				var other ssa.Value
+				if isLoadOfField(b.X, prefF) {
+					other = b.Y
+				} else if isLoadOfField(b.Y, prefF) {
+					other = b.X
+				} else {
+					return false
+				}
+				sv, okc := constString(other)
+				return okc && sv == "" && truth == (b.Op == token.EQL)
+			})
+			if !empty {
+				okAll, why = false, shortCanon(canon(leaf))
+			}
+		})
+		r.Check(rule, fmt.Sprintf("(*Router).appendGroupInfo:route.path#%d prefixed on every path", i+1), w.InstrPos(fpv.in), okAll, map[bool]string{true: "every alternative of the stored path is formatPath(prefix + path), except where the prefix is known to be empty", false: "an alternative of the stored path (" + why + ") lacks the group prefix although a prefix can be in force: the route is registered outside its group"}[okAll])
+	}
 }
 
 // C11-TRAIL: registration normalises a grouped route twice (group prefix, then prefix + path) and a request once,
@@ -381,6 +454,27 @@ func ruleC11Enc(r *Run) {
 		}
 		r.Check(rule, "(*Router).handleHTTPRequest:decoded path", w.InstrPos(q), okDec && nDec > 0, map[bool]string{true: "without UseEncodedPath the matcher receives Req.URL.Path", false: "without UseEncodedPath the matcher does not receive the decoded URL path"}[okDec && nDec > 0])
 		r.Check(rule, "(*Router).handleHTTPRequest:escaped path", w.InstrPos(q), okEnc && nEnc > 0, map[bool]string{true: "with UseEncodedPath the matcher receives Req.URL.EscapedPath()", false: "with UseEncodedPath the matcher does not receive the escaped path"}[okEnc && nEnc > 0])
+		// the matcher normalises exactly what it was given: QuickMatch hands its path parameter (or the configured
+		// intercept path) to formatPath as it is — cutting it (at a '?', a '#', a suffix) cuts request paths that
+		// legitimately contain that byte after decoding
+		if qm := w.FnOpt("rux", "Router.QuickMatch"); qm != nil && len(qm.Params) >= 3 {
+			fpF := w.Fn("rux", "Router.formatPath")
+			icF := w.Field("rux", "Router", "interceptAll")
+			for ci, c := range callsToFn(qm, fpF) {
+				okRaw := true
+				what := ""
+				for _, lf := range valueLeaves(c.Common().Args[1]) {
+					if lf == ssa.Value(qm.Params[2]) || isLoadOfField(lf, icF) {
+						continue
+					}
+					if cc, isC := lf.(*ssa.Call); isC && calleeName(cc) == "strings.TrimSpace" {
+						continue
+					}
+					okRaw, what = false, shortCanon(canon(lf))
+				}
+				r.Check(rule, fmt.Sprintf("(*Router).QuickMatch:formatPath input#%d", ci+1), w.InstrPos(c.(ssa.Instruction)), okRaw, map[bool]string{true: "formatPath receives the request path (or the intercept path) as given", false: "the request path is rewritten (" + what + ") before it is normalised and matched: a decoded path that contains the cut-off byte (a built URL for a value with '?') is truncated and dispatched to another route, or none"}[okRaw])
+			}
+		}
 	}
 }
 
@@ -1156,7 +1250,7 @@ func init() {
 			NotDecided:  []string{"that every invalid pattern is recognised as invalid (regex metacharacters in literals, unbalanced braces that happen to compile)", "panics inside regexp, net/http, user handlers", "nil middleware values in a chain (dispatch, not matching)"},
 			Assumptions: []string{"the trusted discharges listed in idx.go (library contracts and the handler boundary)"},
 		},
-		Rules: []ruleFn{{"C13-GATE", ruleC13Gate}, {"C13-OPTIONAL", ruleC13Optional}, {"C13-MEMBER", ruleC13Member}, {"C13-TOTAL", ruleC13Total}, {"C02-GROUPS", ruleC02Groups}, {"C07-GUARD", ruleC07Guard}, {"C05-LIMIT", ruleC05LimitRoute}, {"PHASE", rulePhase("PHASE")}},
+		Rules: []ruleFn{{"C13-GATE", ruleC13Gate}, {"C13-GATE", ruleC13NoRecover}, {"C13-OPTIONAL", ruleC13Optional}, {"C13-MEMBER", ruleC13Member}, {"C13-TOTAL", ruleC13Total}, {"C02-GROUPS", ruleC02Groups}, {"C07-GUARD", ruleC07Guard}, {"C05-LIMIT", ruleC05LimitRoute}, {"PHASE", rulePhase("PHASE")}},
 	})
 }
 
@@ -1466,4 +1560,29 @@ func ruleC13Optional(r *Run) {
 		}
 		r.Check(rule, "rux.checkAndParseOptional:"+pf.name, cpo.Pos(), ok, detail)
 	}
+}
+
+// ruleC13NoRecover: "bad definitions fail at registration" means the panics of the registration checks reach the
+// caller. The only recover() in the root package is the dispatcher's frame around the handler chain; a recover in
+// a registration helper (to "improve the message") can swallow the very panics it wraps — regexp.MustCompile and
+// goutil.Panicf panic with strings, not errors.
+func ruleC13NoRecover(r *Run) {
+	w := r.W
+	rule := "C13-GATE"
+	cg := w.BuildCG()
+	_, _, frame, _ := findFrame(w, cg)
+	n := 0
+	for _, f := range w.Funcs {
+		if f.Pkg == nil || f.Pkg.Pkg.Path() != modPath {
+			continue
+		}
+		for _, rc := range callsRecover(f) {
+			if f == frame {
+				continue
+			}
+			n++
+			r.Check(rule, fmt.Sprintf("%s:recover#%d", FuncName(f), n), w.InstrPos(rc.(ssa.Instruction)), false, "recover() outside the dispatcher's frame: a registration-time panic (invalid pattern, uncompilable regex, capture-group mismatch) that passes through here can be swallowed, the definition is accepted and fails at lookup instead")
+		}
+	}
+	r.Check(rule, "root package:recover only in the dispatcher frame", token.NoPos, n == 0, "no function of the root package other than the request frame recovers panics")
 }
